@@ -274,6 +274,8 @@ class ExprMixin:
             if self.path.branch(v.isnone):
                 self.raise_builtin("TypeError")
             return v.val
+        if isinstance(v, VOpaque) and self.registry.opaques.get(v.cls) is not None and self.registry.opaques[v.cls].as_int:
+            return self.registry.opaque_as_int(self, v)
         return v
 
     def py_eq(self, a, b):
